@@ -36,6 +36,8 @@ type Result struct {
 	Trace       []string       `json:"trace,omitempty"`
 	Sample      string         `json:"sample,omitempty"`
 	Knobs       map[string]any `json:"knobs,omitempty"`
+	// Evals counts the cases evaluated inside this run when a run enumerates several (cut positions).
+	Evals int `json:"evals,omitempty"`
 }
 
 // Ctx is handed to a check for one run (inside the bubble).
@@ -43,6 +45,9 @@ type Ctx struct {
 	T     *tape.Tape
 	Tier  string
 	Check string
+	// Seed and Run identify the run (for checks that enumerate, e.g. run index -> (base, cut position)).
+	Seed int64
+	Run  int
 	// Trace makes Logf keep the text (replay / sample runs).
 	Trace bool
 
@@ -60,7 +65,11 @@ type Ctx struct {
 	cleanup    []func()
 	endNanos   int64
 	ended      bool
+	evals      int
 }
+
+// AddEvals counts enumerated cases evaluated inside this run.
+func (c *Ctx) AddEvals(n int) { c.evals += n }
 
 // NewCtx creates a context; call inside the bubble so that start is fake time.
 func NewCtx(check, tier string, t *tape.Tape, trace bool) *Ctx {
@@ -142,7 +151,7 @@ func (c *Ctx) Finish(run int) *Result {
 	sort.Strings(st)
 	r := &Result{Check: c.Check, Run: run, Violation: c.viol, Steps: c.Step, SimNanos: c.endNanos,
 		Faults: c.faults, Probes: c.probes, Fingerprint: c.h, States: st, Nontrivial: c.nontrivial,
-		Sample: c.sample, Knobs: c.knobs}
+		Sample: c.sample, Knobs: c.knobs, Evals: c.evals}
 	if c.Trace {
 		r.Trace = c.trace
 	}
